@@ -180,6 +180,16 @@ class Extractor:
             if m == "seek":
                 return pre + [{"n": "seek", "how": n["args"][0], "line": n.get("line")}]
         recv_nodes = self.expr(n["recv"], env)
+        if fid not in self.fx.fns and n.get("resolved") is None and tr and getattr(self, "tybind", None):
+            # a trait method called on a type parameter of the helper being inlined: the instantiation decides the impl
+            rty = str(n.get("recv_aty") or n["recv"].get("ty") or "").replace("&mut ", "").replace("&", "").strip()
+            conc = self.tybind.get(rty)
+            if conc:
+                for g_id, g_ in self.fx.fns.items():
+                    im = g_.get("impl") or {}
+                    if g_["name"] == m and im.get("self_ty") == conc and (im.get("trait_path") or "") == tr:
+                        fid = g_id
+                        break
         if fid in self.fx.fns:
             return recv_nodes + pre + self.local_call(n, fid, [n["recv"]] + n["args"], env)
         return recv_nodes + pre
@@ -237,9 +247,22 @@ class Extractor:
             for p, a in zip(params, args):
                 if p:
                     sub[p] = a
+            # a generic helper: bind its type parameters from the argument types, so that trait calls on them resolve
+            saved_bind = dict(getattr(self, "tybind", {}))
+            self.tybind = dict(saved_bind)
+            for g in f.get("generics") or []:
+                for pty, a in zip(f.get("inputs_s") or [], args):
+                    aty = str(hirq.strip_wrappers(a).get("ty") or a.get("ty") or "")
+                    rx = re.escape(pty.replace("&mut ", "&").replace("&", "")).replace(re.escape(g), "(.+)")
+                    m_ = re.fullmatch(rx, aty.replace("&mut ", "&").replace("&", "")) if g in pty else None
+                    if m_:
+                        self.tybind[g] = m_.group(1)
             self.depth += 1
-            body = seq(self.expr(root, dict(env, **{"subst": sub})))
-            self.depth -= 1
+            try:
+                body = seq(self.expr(root, dict(env, **{"subst": sub})))
+            finally:
+                self.depth -= 1
+                self.tybind = saved_bind
             return [{"n": "inline", "fn": fid, "name": last2(fid), "self_ty": self.self_ty_of(fid), "args": args, "params": params, "body": body, "line": line, "id": self.new_id(), "node": id(n)}]
         return []
 
@@ -288,6 +311,7 @@ def walk(L):
 
 
 def extract(fx, iof, fn, opaque=None):
+    _FX["fx"] = fx
     ex = Extractor(fx, iof, opaque)
     root = hirq.layout_root(fn)
     if root is None:
@@ -305,10 +329,23 @@ def extract(fx, iof, fn, opaque=None):
 # ------------------------------------------------------------------------------------------------
 # rendering / normalisation of value and condition expressions
 
+_FX = {}
+
+
+class _Sub(dict):
+    """an argument expression together with the substitution it has to be rendered under (a closure over the caller's lets)"""
+
+    def __init__(self, node, subst):
+        dict.__init__(self, node)
+        self._subst = subst
+
+
 def norm_expr(n, subst=None, depth=0):
     """canonical string of an expression: `self.` and reference/deref noise removed, casts dropped, constants evaluated"""
     if n is None:
         return "?"
+    if isinstance(n, _Sub):
+        return norm_expr(dict(n), n._subst, depth + 1)
     if depth > 10:
         return "…"
     k = n.get("k")
@@ -350,6 +387,15 @@ def norm_expr(n, subst=None, depth=0):
         fnp = n.get("fn") or "?"
         if fnp.endswith("From::from") and len(n["args"]) == 1:
             return norm_expr(n["args"][0], subst, depth + 1)
+        # a local helper whose body is one expression of its parameters (`fn end_of(start, size) -> u64 { start + size }`)
+        g = (_FX.get("fx").fns.get(n.get("resolved") or n.get("fn")) if _FX.get("fx") is not None else None)
+        if g is not None and depth < 8:
+            root = hirq.body_root(g)
+            tail = root.get("expr") if root and root.get("k") == "block" and not root.get("stmts") else None
+            ps = [p_.get("name") for p_ in (g.get("hir") or {}).get("params", [])]
+            if tail is not None and tail.get("k") in ("bin", "cast", "path", "un") and all(ps) and len(ps) == len(n["args"]):
+                inner = dict(zip(ps, [_Sub(a, subst) for a in n["args"]]))
+                return norm_expr(tail, inner, depth + 1)
         return "%s(%s)" % (last2(fnp), ",".join(norm_expr(a, subst, depth + 1) for a in n["args"]))
     if k == "index":
         return "%s[%s]" % (norm_expr(n["e"], subst, depth + 1), norm_expr(n["i"], subst, depth + 1))
